@@ -256,6 +256,17 @@ Proof.
   - exact (kind_not_hosted st R il s P E).
 Qed.
 
+(** readiness is irrelevant: whatever Pending flags the NodeHost reports (shards started a moment
+    ago, joining replicas that have applied nothing yet), every listed shard gets the kind of its
+    type, and only a shard id that is not listed gets the error *)
+Theorem kind_readiness : forall st, reachable st ->
+  forall (il : list shard_info) s, Permutation (map fst il) (hosted st) ->
+    qres_of (support_regular_info il s) = spec_answer (hosted st) s.
+Proof.
+  intros st R il s P. unfold support_regular_info.
+  exact (kind_reachable st R (map fst il) s P).
+Qed.
+
 (** a stopped shard id is answered with an error until it is started again, and then with the
     kind of the NEW type, whatever it ran as before and whatever was asked before *)
 Theorem kind_after_stop : forall st, reachable st -> forall s il,
